@@ -324,28 +324,19 @@ def visitAssign (ctx : Nat) (name : Name) (s : St) : St :=
       if !maybeAttribute s ctx name && dhas o.contents name then s
       else if dhas o.contents name then s else addObj s .attribute name ctx
 
-/-- an exception other than `LookupError` escapes `find_object(expandbase)` -/
-def baseCrash (e : Names.Env) (x : Option Path) : Bool :=
-  match x with
-  | some p => Names.findObject e p == .crash
-  | none => false
-
 /-- `visit_ClassDef` up to `pushClass`: the bases are expanded in the enclosing scope, the class
 object is created and entered; its id is `s.reg.objs.length` -/
 def enterClass (ctx : Nat) (name : Name) (bases : List Path) (s : St) : St :=
   let e := envOf s
   let expanded := bases.map (fun b => Names.expandName e ctx b)
-  -- since fix 2487083: `find_object(expandbase)` (`LookupError` → `None`), not `objForFullName`: a base that a
-  -- re-export has moved already is found under its old name
   let objs := expanded.map (fun x => match x with
-    | some p => (match Names.findObject e p with
-      | .obj o => if isClassObj s.reg o then some o else none
-      | _ => none)
+    | some p => (match Names.objFor e p with
+      | some o => if isClassObj s.reg o then some o else none
+      | none => none)
     | none => none)
-  let crash := expanded.any (baseCrash e)
   let s1 := addObj s .cls name ctx
   markBad { s1 with cinfo := s1.cinfo ++ [(s.reg.objs.length, ⟨ctx, bases, expanded, objs⟩)] }
-    (expanded.any Option.isNone || crash)
+    (expanded.any Option.isNone)
 
 mutual
 /-- one statement, visited with `builder.current = ctx` inside module `mod` -/
